@@ -326,3 +326,34 @@ def fault_free(dummy: int) -> bool:
     i = FF_ORDER[part()]
     cmd, out, st, world, d = run_case(i, 10 ** 6, FAULT_SW, 0x6A87, 0)
     return out[0] == "reply" and out[1].get("errorcode") == 0 and world.exchanges == _KMAX[i] and not world.violations
+
+
+@obligation(tier="quick", parts=lambda tier: len(QUICK_CASES) if tier == "quick" else len(CASES), timeout=150,
+            part_names=lambda p: "reconnect fails before: %s" % CASES[FF_ORDER[p]][2],
+            bounds="pre-state: a link error is pending (the manager must reconnect first) and the reconnection fails 1..2 times (symbolic): "
+                   "every command is answered with the device error code and the manager keeps running; then the command succeeds",
+            examples=[(0, dict(fails=1)), (4, dict(fails=2)), (10, dict(fails=1))])
+def pending_reconnect_fails(fails: int) -> bool:
+    """
+    pre: 1 <= fails <= 2
+    post: _
+    """
+    from sim.base import comm_exception
+    i = FF_ORDER[part()]
+    cmd, var, _ = CASES[i]
+    v1 = i in V1_CASES
+    d = _device(cmd)
+    proto, dongle, world = make_stack(d, v1=v1)
+    (proto.protocol_v2 if v1 else proto)._comm_issue = True
+    left = {"n": fails}
+
+    def connect_hook():
+        if left["n"] > 0:
+            left["n"] -= 1
+            raise comm_exception("No dongle found", 0x6F00)
+    world.connect_hook = connect_hook
+    for _ in range(fails):
+        if handle(proto, case_request(i)) != ("reply", {"errorcode": -2 if v1 else -905}):
+            return False
+    out = handle(proto, case_request(i))
+    return out[0] == "reply" and out[1].get("errorcode") == 0
